@@ -423,9 +423,10 @@ def _worker(item):
 
 
 ALLTYPES = ['A', 'B', 'C', 'D']
-# other legal label sets: zero-based integers (0 is falsy) and multi-character names (a str key must
+# other legal label sets: integers (0 is falsy; label != position) and multi-character names (a str key must
 # not be iterated character by character); explored two levels shallower than the letters
-LABELSETS = {'letters': ALLTYPES, 'ints': [0, 1, 2, 3], 'names': ['poly', 'solv', 'ion', 'np']}
+LABELSETS = {'letters': ALLTYPES, 'ints': [1, 0, 3, 2], 'names': ['poly', 'solv', 'ion', 'np'],
+             'nested-names': ['C', 'CH2', 'PS', 'PS-b-P2VP']}      # ints: labels that are not their own positions (and 0 is falsy); names contained in one another
 
 
 def run(rec, tier, seed):
